@@ -37,6 +37,8 @@ PROPS = {
     'C19': ['client'],
     'C13': ['history'],
     'C14': ['validators'],
+    'C16': ['specs'],
+    'C17': ['specbind'],
     'C18': ['http'],
     'C20': ['mocker'],
     'C10': ['asyncsched'],
